@@ -15,7 +15,7 @@ from TexSoup import TexSoup
 
 ATOMS = ['\\begin{a}', '\\end{a}', '\\item', '\\x', '\\left(', '\\\\', '\\newcommand', '\\begin{verbatim}',
          '\\end{verbatim}', '{', '}', '[', ']', '$', '%', 'a', ' ', '\n', '\\', '*', '\\[', '\\]', '$$', '\\begin{equation}',
-         '\\end{equation}', '\\begin', '\\end', '(', '\\%', '\x00', '%c\n', '\\end {a}', '\\begin{ a}', '\\begin[a]', '\r', '\t']
+         '\\end{equation}', '\\begin', '\\end', '(', '\\%', '\x00', '%c\n', '\\end {a}', '\\begin{ a}', '\\begin[a]', '\r', '\t', "\\'"]
 SMALL = ['\\begin{a}', '\\end{a}', '\\x', '{', '}', '[', ']', '$', '%', 'a', ' ', '\n', '\\', '%c\n']
 ALLOWED = (EOFError, TypeError, AssertionError)
 PROP = None
@@ -88,18 +88,44 @@ def finding_class(s):
     return None
 
 
+class _Hang(Exception):
+    pass
+
+
+def _alarm(signum, frame):
+    raise _Hang()
+
+
 def check(s):
-    """-> list of (class, description) for property PROP on input s"""
+    """-> list of (class, description) for property PROP on input s; a case that runs longer than 20 s is reported as
+    not terminating (C06) instead of blocking the sweep"""
+    import signal
+    signal.signal(signal.SIGALRM, _alarm)
+    signal.alarm(20)
+    try:
+        return _check(s)
+    except _Hang:
+        return [('does-not-terminate', 'TexSoup(%r) did not finish within 20 s' % s)] if PROP == 'C06' else []
+    finally:
+        signal.alarm(0)
+
+
+def _check(s):
     out = []
     clean = '\x00' not in s and '\x7f' not in s
     if PROP == 'C06':
+        import signal
         for tol in (0, 1):
+            signal.alarm(20)            # one watchdog per run
             try:
                 TexSoup(s, tolerance=tol)
             except ALLOWED:
                 pass
             except RecursionError:
                 pass
+            except _Hang:
+                out.append(('does-not-terminate', 'TexSoup(%r, tolerance=%d) did not finish within 20 s' % (s, tol)))
+                break
             except BaseException as e:
                 out.append(('internal-exception:' + type(e).__name__,
                             'TexSoup(%r, tolerance=%d) raised %s: %s' % (s, tol, type(e).__name__, str(e)[:80])))
@@ -227,6 +253,10 @@ def cases(tier, rnd):
     docs = ['\\begin{a}x\\end{a}', '\\section{A}\n\\textbf{b}', '\\begin{itemize}\n\\item a\n\\item b\n\\end{itemize}',
             '$a+b$ and \\[x\\]', '\\newcommand{\\x}[1]{#1}', '\\begin{verbatim}\n$ { \\end{verbatim}', 'a % c\nb',
             '\\x[o]{r}{s} t', '{\\bf a}', '\\begin{equation}\\left(a\\right)\\end{equation}']
+    # whole documents only (their prefixes / deletions would leave the side conditions of C08): commands with a fixed
+    # signature followed by further groups, accents before blanks
+    out += ['\\textbf{a}{b} c', '\\section{T}{x}[y]', '\\label{l}[x]', '\\def{\\double}{#1#1}{x}', "caf\\'e \\textbf{x}",
+            '\\"o $x$ \\\'e }', '\\textbf{a}{b}{c}\\section{s}{t}']
     out += ['\\begin{a}x\\end {a}y', '\\begin{\\x}x\\end{\\x}', '\\begin[x]{a}b\\end{x}', '\\begin{ a}x\\end{a}',
             '\\begin{a }x\\end{a}', '\\begin{}\\end{}', '\\begin{[tex]}x\\end{[tex]}y']
     # argument lists: every sequence of <= 4 groups (repeats included) after a command and after \begin{a}
